@@ -4,6 +4,9 @@ import json
 import os
 import sys
 import traceback
+import gc
+
+gc.disable()      # short-lived analysis process over large syntax trees with parent links: the cyclic collector only costs time
 
 from .core import AnalysisError, Check
 
